@@ -177,7 +177,8 @@ def emul_full_expr(e, l, my_eip, env, machine):
         # serpillere included an emulation of TSC incrementation,
         # why here and nowhere else?
         if isinstance(machine.pool[tsc1], ExprInt):
-            machine.pool[tsc1].arg += tsc_inc
+            # a new constant: the old one may be shared with the caller
+            machine.pool[tsc1] = ExprInt(machine.pool[tsc1].arg + tsc_inc)
 
     return my_eip, mem_dst
 
